@@ -594,3 +594,57 @@ Proof.
       lia. }
     intuition congruence.
 Qed.
+
+(* ---- the /16 sweep of the correspondence check: two ids differing in their first bit are both valid exactly at the
+   exempt addresses ---- *)
+Lemma lxor_128_ne x : N.lxor x 128 <> x.
+Proof.
+  intros H. assert (E: N.lxor x (N.lxor x 128) = 0) by (rewrite H; apply N.lxor_nilpotent).
+  rewrite <- N.lxor_assoc, N.lxor_nilpotent, N.lxor_0_l in E. discriminate.
+Qed.
+
+Lemma flipped_pair_never_both x b1 b2 r t :
+  bytes_eqb (first_21_bits (x :: b1 :: b2 :: r)) t && bytes_eqb (first_21_bits (N.lxor x 128 :: b1 :: b2 :: r)) t = false.
+Proof.
+  cbn [first_21_bits]. destruct t as [|t0 t]; [reflexivity|]. cbn [bytes_eqb].
+  destruct (N.eqb_spec x t0) as [->|]; [|reflexivity].
+  destruct (N.eqb_spec (N.lxor t0 128) t0) as [E|]; [now apply lxor_128_ne in E|]. cbn. now rewrite andb_false_r.
+Qed.
+
+Theorem flipped_pair_valid_iff_exempt i ip : (2 < length i)%nat ->
+  is_valid_for_ip i ip && is_valid_for_ip (flip_first_bit i) ip = ip_exempt ip.
+Proof.
+  intros Hl. destruct i as [|x [|b1 [|b2 r]]]; try (cbn in Hl; lia). unfold is_valid_for_ip, flip_first_bit.
+  destruct (ip_exempt ip); [reflexivity|].
+  change (nth 19 (N.lxor x 128 :: b1 :: b2 :: r) 0) with (nth 19 (x :: b1 :: b2 :: r) 0). apply flipped_pair_never_both.
+Qed.
+
+(* the exemption depends on the first two octets only, and is the reference table of private / loopback / link-local *)
+Lemma ip_octet0_prefix ip : ip_octet ip 0 = N.land (ip / 65536 / 256) 0xff.
+Proof. unfold ip_octet. change (8 * (3 - 0)) with 24. rewrite N.shiftr_div_pow2. change (2 ^ 24) with (65536 * 256). now rewrite N.div_div by discriminate. Qed.
+
+Lemma ip_octet1_prefix ip : ip_octet ip 1 = N.land (ip / 65536) 0xff.
+Proof. unfold ip_octet. change (8 * (3 - 1)) with 16. now rewrite N.shiftr_div_pow2. Qed.
+
+Lemma nseq_in n : forall start x, In x (nseq n start) <-> start <= x < start + N.of_nat n.
+Proof.
+  induction n as [|n IH]; intros start x; cbn [nseq In].
+  - split; [contradiction|lia].
+  - rewrite IH. lia.
+Qed.
+
+Lemma exempt_table_sweep :
+  forallb (fun p => Bool.eqb (ip_is_private (p * 65536) || ip_is_link_local (p * 65536) || ip_is_loopback (p * 65536)) (spec_exempt16 p))
+          all_prefixes = true.
+Proof. vm_compute. reflexivity. Qed.
+
+Theorem exempt_is_reference_table ip : ip < 2 ^ 32 -> ip_exempt ip = spec_exempt16 (ip / 65536).
+Proof.
+  intros Hlt. set (p := ip / 65536).
+  assert (Hp: p < 65536) by (apply N.div_lt_upper_bound; [discriminate|exact Hlt]).
+  assert (E: ip_exempt ip = ip_exempt (p * 65536)).
+  { unfold ip_exempt, ip_is_private, ip_is_link_local, ip_is_loopback.
+    rewrite !ip_octet0_prefix, !ip_octet1_prefix. rewrite N.div_mul by discriminate. reflexivity. }
+  rewrite E. pose proof exempt_table_sweep as H. rewrite forallb_forall in H.
+  specialize (H p). apply Bool.eqb_prop. apply H. apply nseq_in. cbn. lia.
+Qed.
